@@ -60,7 +60,10 @@ pub fn remove_condition_parentheses(expression: Expression) -> Expression {
             let (_, comments) = trivia_util::take_trailing_comments(&expression);
             #[cfg(feature = "verif")]
             crate::verif::event("cond.paren_removed", 1, 0);
-            inner_expression.update_trailing_trivia(FormatTriviaType::Append(comments))
+            // The condition may be enclosed in several pairs of parentheses [e.g. `if ((x)) then`]
+            remove_condition_parentheses(
+                inner_expression.update_trailing_trivia(FormatTriviaType::Append(comments)),
+            )
         }
         _ => expression,
     }
